@@ -920,6 +920,44 @@ theorem gen_mvn_accessor (cholesky : List (List ℝ) → List (List ℝ)) (loc :
   · simp only [GenFam.mvnCovariance, triUnwrapTriangular, Families.mvnCovariance, MvnPf.mvnBijection_chol h hl, Option.map_some,
       matmul_transpose_eq h.sq]
 
+/-! #### `VmapMixture`: generated `__init__`, `_log_prob`, `_sample` -/
+
+/-- the generated constructor on positive (unnormalised) weights, any number of components: declared shapes, stored raw leaf
+`log weights`, and the unwrapped `log_normalized_weights = log (wᵢ / Σ w)`; it raises iff some weight is `≤ 0` -/
+theorem gen_mixture_ctor {X K : Type} (dist : VDist X K ℝ) (w : NArr ℝ) :
+    ((∀ x ∈ w.data, 0 < x) →
+      ∃ m, GenFam.VmapMixture.init dist w = some m ∧ m.shape = dist.shape ∧ m.cond_shape = dist.cond_shape ∧ m.dist = dist ∧
+        m.log_normalized_weights.args = w.data.map Real.log ∧
+        m.unwrap.log_normalized_weights = w.data.map (fun x => Real.log x - Real.log w.data.sum)) ∧
+    (GenFam.VmapMixture.init dist w = none ↔ ∃ x ∈ w.data, x ≤ 0) := by
+  refine ⟨fun hpos => ?_, mixture_init_none_iff dist w⟩
+  obtain ⟨m, h1, h2, h3, h4, h5, h6⟩ := mixture_init_eq dist w hpos
+  exact ⟨m, h1, h2, h3, h4, h5, by rw [h6, mixture_log_normalized_weights _ hpos]⟩
+
+/-- **mixture density on the generated constructor + generated `_log_prob`**: the log of the weight-normalised sum of the component
+densities, for every number of components and all positive weights -/
+theorem gen_mixture_log_prob {X K : Type} (dist : VDist X K ℝ) (w : NArr ℝ) (hpos : ∀ x ∈ w.data, 0 < x) (x : X) :
+    ∃ m, GenFam.VmapMixture.init dist w = some m ∧
+      GenFam.mixtureLogProb m.unwrap x none
+        = Real.log ((List.zipWith (fun wi lp => wi / w.data.sum * Real.exp lp) w.data (dist.comps.map (fun d => d.logProb x ()))).sum) := by
+  obtain ⟨m, h1, _, _, h4, _, h6⟩ := mixture_init_eq dist w hpos
+  refine ⟨m, h1, ?_⟩
+  rw [mixture_logProb_eq m.unwrap w.data h6, mixture_density _ hpos]
+  show Real.log ((List.zipWith _ w.data (m.dist.comps.map _)).sum) = _
+  rw [h4]
+
+/-- the generated `_log_prob` / `_sample` are the hand model `Families.vmapMixture`'s (so `mixture_sample_law`,
+`mixture_sample_is_component_sample`, `mixture_weight_scale_invariant` are about them) -/
+theorem gen_mixture_eq_model {X K : Type} [Inhabited X] (m : MixtureU X K ℝ) (ws : List ℝ)
+    (h : m.log_normalized_weights = logNormWeights ws) (x : X) (key : ℕ × K) :
+    GenFam.mixtureLogProb m x none = (vmapMixture m.dist.comps ws).logProb x () ∧
+    GenFam.mixtureSample m key none = mixtureSample m.dist.comps key () ∧
+    (m.dist.comps ≠ [] → GenFam.mixtureSample m key none = some ((vmapMixture m.dist.comps ws).sample key ())) := by
+  refine ⟨mixture_logProb_eq m ws h x none, mixture_sample_eq m key none, fun hne => ?_⟩
+  rw [mixture_sample_eq]
+  obtain ⟨d, _, hd⟩ := mixture_take_defined m.dist.comps hne key.1
+  simp [mixtureSample, vmapMixture, DistCore.toDist, hd]
+
 /-! #### non-vacuity: concrete instances (a broadcasting pair of shapes `(3,)` × `(2, 1)`; scalars) -/
 
 theorem gen_broadcast_instance :
